@@ -315,17 +315,43 @@ def _consts_used(node):
     return cs, lits
 
 
+def place_payload_fields(ctx, pc):
+    """In-place payload field of each sub-node, read off the code rather than a constant's name: the bits that
+    `set_X(None)` clears besides X_BIT (on the pinned tree: LAB_LOW, COR_LOW, DOR_LOW, PHR_ASD)."""
+    out = {}
+    for sub, K, node in SUB:
+        s = ctx.fn(ctx.lib, "asca::place::Place::set_%s" % sub)
+        val = 0
+        for m in hirq.matches(s):
+            for arm in m["arms"]:
+                pk = hirq.pat_key(hirq.flat_pats(arm["pat"])[0])
+                if not (pk[0] == "path" and (pk[1] or "").endswith("Option::None")):
+                    continue
+                for n in hirq.walk(arm["body"]):
+                    if n["e"] == "unary" and n["op"] == "Not":
+                        c_, l_ = _consts_used(n["a"])
+                        for x in c_:
+                            if x != K + "_BIT":
+                                val |= pc.get(x, 0)
+                        for x in l_:
+                            val |= x
+        if not val:
+            raise AnchorMissing("set_%s(None): no payload field is cleared" % sub)
+        out[K] = val & ~pc[K + "_BIT"] & 0xFFFF
+    return out
+
+
 def tab3(ctx):
     r = RuleResult("TAB-3", "Place bit layout constants and accessor constant usage; node dispatch tables", floor=62)
     lib = ctx.lib
     pc = place_consts(ctx)
-    need = ["LAB_BIT", "COR_BIT", "DOR_BIT", "PHR_BIT", "LAB_LOW", "COR_LOW", "DOR_LOW", "PHR_ASD",
+    need = ["LAB_BIT", "COR_BIT", "DOR_BIT", "PHR_BIT",
             "LAB_OFF", "COR_OFF", "DOR_OFF", "LAB_MSK", "COR_MSK", "DOR_MSK", "PHR_MSK"]
     for n in need:
         if n not in pc:
             raise AnchorMissing("Place::%s not found / not evaluable" % n)
     ploc = ctx.adt(lib, "asca::place::Place")["loc"]
-    low = {"LAB": pc["LAB_LOW"], "COR": pc["COR_LOW"], "DOR": pc["DOR_LOW"], "PHR": pc["PHR_ASD"]}
+    low = place_payload_fields(ctx, pc)
     off = {"LAB": pc["LAB_OFF"], "COR": pc["COR_OFF"], "DOR": pc["DOR_OFF"], "PHR": 0}
     msk = {k: pc[k + "_MSK"] for k in ("LAB", "COR", "DOR", "PHR")}
     bit = {k: pc[k + "_BIT"] for k in ("LAB", "COR", "DOR", "PHR")}
@@ -518,7 +544,7 @@ def tab3(ctx):
             if not ok:
                 r.report("TAB-3b|%s|%s" % (fname, nk), fn_loc(fb, ln), fb.path,
                          "%s maps NodeKind::%s to calls %s / fields %s; expected %s" % (fname, nk, calls, fields, want))
-    r.analysed = {"constants": len(need), "accessors": 16, "dispatch_tables": 2}
+    r.analysed = {"constants": len(need), "accessors": 16, "dispatch_tables": 2, "payload_fields": {k: hex(v) for k, v in low.items()}}
     return r
 
 
